@@ -20,7 +20,9 @@ for c in cases:
         return u, lines
     with ThreadPoolExecutor(3) as ex:
         for u, lines in ex.map(run, c['units']):
-            bad = any('errors=' in l and 'errors=0' not in l for l in lines)
+            # (unit contexts_b fails two obligations on purpose: the known findings of C20)
+            fails = [l for l in r_lines(u) if l.startswith('  - ')] if False else [l for l in lines if l.startswith('  - ')]
+            bad = any('errors=' in l and 'errors=0' not in l for l in lines) and not (u == 'contexts_b' and all(('argument_not_infix' in l or 'argument_as_alone' in l) for l in fails) and 'errors=2' in ' '.join(lines))
             print('FALSE-ALARM' if bad else 'ok        ', c['name'], '|', ' ; '.join(l.strip()[:150] for l in lines[:3]), flush=True)
     shutil.rmtree(d, ignore_errors=True)
     h = hashlib.sha1(os.path.abspath(d).encode()).hexdigest()[:8]
